@@ -50,30 +50,42 @@ class NpProxy(types.ModuleType):
     def __getattr__(self, n):
         return getattr(np, n)
 
-    # -- allocation: float64 |-> symbolic real
+    # -- allocation: float64 |-> symbolic real (filled with constant Sym, so reductions stay Sym)
     def zeros(self, shape, dtype=None, *a, **k):
         if _isfloat(dtype):
             _used("np.zeros(float)->object")
-            dtype = object
+            return _filled(np.zeros(shape, object, *a, **k), 0)
         return np.zeros(shape, dtype, *a, **k)
 
     def ones(self, shape, dtype=None, *a, **k):
         if _isfloat(dtype):
             _used("np.ones(float)->object")
-            dtype = object
+            return _filled(np.ones(shape, object, *a, **k), 1)
         return np.ones(shape, dtype, *a, **k)
 
     def empty(self, shape, dtype=None, *a, **k):
         if _isfloat(dtype):
             _used("np.empty(float)->object zeros")
-            return np.zeros(shape, object, *a, **k)
+            return _filled(np.zeros(shape, object, *a, **k), 0)
         return np.empty(shape, dtype, *a, **k)
 
     def full(self, shape, fill_value, dtype=None, *a, **k):
         if (dtype is None and isinstance(fill_value, (float, Sym))) or (dtype is not None and _isfloat(dtype)):
             _used("np.full(float)->object")
-            dtype = object
+            return _filled(np.empty(shape, object, *a, **k), fill_value)
         return np.full(shape, fill_value, dtype, *a, **k)
+
+    def zeros_like(self, a, dtype=None, *args, **k):
+        r = np.zeros_like(a, dtype, *args, **k)
+        return _filled(r, 0) if r.dtype == object else r
+
+    def ones_like(self, a, dtype=None, *args, **k):
+        r = np.ones_like(a, dtype, *args, **k)
+        return _filled(r, 1) if r.dtype == object else r
+
+    def full_like(self, a, fill_value, dtype=None, *args, **k):
+        r = np.full_like(a, fill_value, dtype, *args, **k)
+        return _filled(r, fill_value) if r.dtype == object else r
 
     def sinc(self, x):
         xa = np.asarray(x)
@@ -214,6 +226,22 @@ class NpProxy(types.ModuleType):
             return r
         return np.clip(a, a_min, a_max, out=out, **k)
 
+    def where(self, *a, **k):
+        r = np.where(*a, **k)
+        return symify(r) if isinstance(r, np.ndarray) and r.dtype == object else r
+
+    def concatenate(self, *a, **k):
+        r = np.concatenate(*a, **k)
+        return symify(r) if r.dtype == object else r
+
+    def stack(self, *a, **k):
+        r = np.stack(*a, **k)
+        return symify(r) if r.dtype == object else r
+
+    def pad(self, *a, **k):
+        r = np.pad(*a, **k)
+        return symify(r) if r.dtype == object else r
+
     def array(self, obj, dtype=None, *a, **k):
         if dtype is not None and _isfloat(dtype) and _has_sym(obj):
             _used("np.array(sym, float)->object")
@@ -236,6 +264,23 @@ class NpProxy(types.ModuleType):
         except TypeError:
             pass
         return np.issubdtype(a, b)
+
+
+def symify(arr):
+    """wrap bare Python/NumPy numbers inside an object array as constant Sym (value preserving)"""
+    if arr.flags.writeable:
+        flat = arr.reshape(-1) if arr.flags.c_contiguous else None
+        it = np.ndindex(*arr.shape)
+        for idx in it:
+            e = arr[idx]
+            if not isinstance(e, (Sym, SymBool, SymInt)) and isinstance(e, (int, float, np.generic)) and not isinstance(e, (bool, np.bool_)):
+                arr[idx] = Sym(e)
+    return arr
+
+
+def _filled(arr, v):
+    arr[...] = v if isinstance(v, Sym) else Sym(v)
+    return arr
 
 
 def _symscalar(r):
@@ -309,6 +354,19 @@ class _UfuncShim:
 
     def __call__(self, *a, out=None, where=True, dtype=None, **k):
         arrs = [np.asarray(x) for x in a]
+        if any(x.dtype == object for x in arrs) and self._fn is None:
+            # real object loop of the real ufunc; only bare-number results are wrapped as constants
+            kw = dict(k)
+            if out is not None:
+                kw["out"] = out
+            if where is not True:
+                kw["where"] = where
+            if dtype is not None:
+                kw["dtype"] = dtype
+            r = self._real(*a, **kw)
+            if isinstance(r, np.ndarray):
+                return symify(r) if r.dtype == object and out is None else r
+            return _symscalar(r)
         if any(x.dtype == object for x in arrs):
             r = self._fn(*a)
             if where is not True:
@@ -346,3 +404,10 @@ def _patch_kernels():
     k = getattr(tr, "Arctan2", None)
     if k is not None and isinstance(k.numpy_ufunc, np.ufunc):
         k.numpy_ufunc = _UfuncShim(k.numpy_ufunc, _arctan2)
+    # selection-type ufuncs can hand back a bare Python operand (np.maximum(2.0, Sym) -> 2.0)
+    from mygrad.math.misc import ops as mo
+
+    for name in ("Maximum", "Minimum"):
+        k = getattr(mo, name, None)
+        if k is not None and isinstance(k.numpy_ufunc, np.ufunc):
+            k.numpy_ufunc = _UfuncShim(k.numpy_ufunc, None)
